@@ -159,11 +159,11 @@ serde_cfg!(serde_deser_hrb_len16, 19, [2, 0, 1], 3, 16, accept true);
 // omissions, duplicates, empty
 serde_cfg!(serde_deser_missing_bh, 19, [0, 1, 2], 2, 16, accept false);
 serde_cfg!(serde_deser_missing_b, 19, [0, 2, 1], 2, 16, accept false);
-serde_cfg!(serde_deser_missing_regs, 13, [1, 2, 0], 2, 16, accept false);
+serde_cfg!(serde_deser_missing_regs, 19, [1, 2, 0], 2, 16, accept false);
 serde_cfg!(serde_deser_dup_regs, 19, [0, 0, 1], 3, 16, accept false);
 serde_cfg!(serde_deser_dup_b, 19, [0, 1, 1], 3, 16, accept false);
 serde_cfg!(serde_deser_dup_bh, 19, [2, 2, 0], 3, 16, accept false);
-serde_cfg!(serde_deser_empty, 13, [0, 1, 2], 0, 16, accept false);
+serde_cfg!(serde_deser_empty, 19, [0, 1, 2], 0, 16, accept false);
 // 32 registers
 serde_cfg!(serde_deser_rbh_len32, 35, [0, 1, 2], 3, 32, accept true);
 serde_cfg!(serde_deser_rbh_len31, 34, [0, 1, 2], 3, 31, accept false);
